@@ -43,7 +43,9 @@ func (g *Gen) Digits(n int) string {
 
 // Texts: valid-UTF-8 strings with non-ASCII, control, quote and HTML-ish
 // characters.
-var Texts = []string{"BL", "1.2.3", "sha-256", "TF-M_SHA256MemPreXIP", "ünïcödé ☃", "quote\"back\\slash", "tab\tnl\nnul\x00", "<&>", "  ", "a", "日本語", strings.Repeat("x", 300), ""}
+var Texts = []string{"BL", "1.2.3", "sha-256", "TF-M_SHA256MemPreXIP", "ünïcödé ☃", "quote\"back\\slash", "tab\tnl\nnul\x00", "<&>", "  ", "a", "日本語", strings.Repeat("x", 300), "",
+	// text that LOOKS like a JSON / HTML escape but is literal content
+	`C:\updates\u0026x`, `[^\u003c]`, `\u003e`, `a\\u0026b`, `\n literal`, `\u2028`, `&amp;`, `%26`, `\"`, `\`, `\\`, "\u2028\u2029", `</script>`, "\ufeffbom", "\u007f"}
 
 func (g *Gen) Text() string { return Texts[g.R.Intn(len(Texts))] }
 func (g *Gen) NonEmptyText() string {
@@ -411,6 +413,10 @@ func Variants(p int, claim string) []Variant {
 			}},
 			{Name: "text", Coarse: "wrong-shape", Apply: func(a *Claims, g *Gen) { a.CertRef = sp(g.Text()) }},
 			{Name: "multiline", Coarse: "wrong-shape", Apply: func(a *Claims, g *Gen) { a.CertRef = sp("x\n" + g.Digits(13) + "-" + g.Digits(5)) }},
+			// strings a hand-rolled or library-assisted digit check could take for
+			// digits: signs, separators, other number syntaxes, Unicode digits with
+			// the right BYTE length or the right RUNE count
+			{Name: "tricky", Coarse: "just-outside", Apply: func(a *Claims, g *Gen) { a.CertRef = sp(g.TrickyCertRef()) }},
 		}
 		return vs
 	case "vsi":
@@ -433,6 +439,26 @@ func Variants(p int, claim string) []Variant {
 		return vs
 	}
 	panic("unknown claim " + claim)
+}
+
+// TrickyCertRef returns a string that is NOT a valid certification reference
+// in either profile but resembles one to a sloppy check.
+func (g *Gen) TrickyCertRef() string {
+	d := g.Digits
+	ar := func(n int) string { return strings.Repeat("\u0663", n) } // ARABIC-INDIC DIGIT THREE, 2 bytes
+	fw := func(n int) string { return strings.Repeat("\uff15", n) } // FULLWIDTH DIGIT FIVE, 3 bytes
+	c := []string{
+		"+" + d(12), "-" + d(12), "+" + d(13), "-" + d(13), "+" + d(12) + "-" + d(5), d(13) + "-+" + d(4), d(13) + "--" + d(4), d(13) + "+" + d(5), d(13) + "-" + "-" + d(5),
+		d(13) + d(5), d(13) + " " + d(5), d(13) + "_" + d(5), d(13) + "\u2010" + d(5), d(13) + "\u2212" + d(5), d(13) + "." + d(5), d(13) + "-" + d(4) + " ", " " + d(12), d(12) + " ",
+		d(6) + "_" + d(6), "0x" + d(11), "0X" + d(11), "0b" + "10101010101", "0o" + d(11), d(11) + "e1", d(11) + ".0", "1_" + d(11), d(12) + "\x00", "\x00" + d(12),
+		// Unicode digits: 13 / 19 BYTES
+		ar(6) + d(1), d(1) + ar(6), ar(6) + d(1) + "-" + d(5), d(13) + "-" + fw(1) + d(2), d(13) + "-" + ar(2) + d(1), fw(4) + d(1), d(10) + fw(1),
+		// Unicode digits: 13 / 19 RUNES
+		ar(13), fw(13), ar(13) + "-" + ar(5), d(12) + ar(1), ar(1) + d(12), d(13) + "-" + d(4) + ar(1), d(13) + "-" + fw(5),
+		// anchoring
+		d(13) + "\n", "\n" + d(13), d(13) + "-" + d(5) + "\n", d(13) + "\r", "x" + d(13), d(13) + "x", d(13) + "-" + d(5) + "-" + d(5), d(13) + "\n" + d(13),
+	}
+	return c[g.R.Intn(len(c))]
 }
 
 // Sig is the class signature of a generated case.
